@@ -343,13 +343,19 @@ class Coverage(BaseAnalysis):
                 cl = SyntaxUtils.rm_child(node, attr, n)
                 self.recurse(n, *args, **{**kwargs, 'clear': cl})
 
+    @staticmethod
+    def no_cast(node: pr.Node) -> pr.Node:
+        """The expression below any number of casts (as the analysis sees it)."""
+        while isinstance(node, pr.Cast):
+            node = node.expr
+        return node
+
     def FuncCall(self, node: pr.FuncCall, *args, **kwargs):
         self.handler(node, *args, **kwargs)
 
     def Assignment(self, node: pr.Assignment, *args, **kwargs):
         allow = pr.BinaryOp, pr.Constant, pr.ID, pr.UnaryOp
-        right = (node.rvalue.expr if isinstance(node.rvalue, pr.Cast)
-                 else node.rvalue)
+        right = self.no_cast(node.rvalue)
         if not (node.op == "=" and isinstance(node.lvalue, pr.ID) and
                 isinstance(right, allow)):
             self.handler(node, *args, **kwargs)
@@ -359,8 +365,7 @@ class Coverage(BaseAnalysis):
 
     def BinaryOp(self, node: pr.BinaryOp, *args, **kwargs):
         left, right = node.left, node.right
-        lf = left.expr if isinstance(left, pr.Cast) else left
-        rt = right.expr if isinstance(right, pr.Cast) else right
+        lf, rt = self.no_cast(left), self.no_cast(right)
         allow = pr.Constant, pr.ID
         if not (node.op in self.BIN_OPS and isinstance(lf, allow) and
                 isinstance(rt, allow)):
@@ -402,9 +407,7 @@ class Coverage(BaseAnalysis):
         self._recurse_attr(node, 'expr', *args, **kwargs)
 
     def UnaryOp(self, node: pr.UnaryOp, *args, **kwargs):
-        operand = node.expr  # the analysis looks through casts
-        while isinstance(operand, pr.Cast):
-            operand = operand.expr
+        operand = self.no_cast(node.expr)
         if not (node.op in self.U_OPS and isinstance(
                 operand, (pr.ID, pr.Constant, pr.UnaryOp))):
             self.handler(node, *args, **kwargs)
